@@ -718,26 +718,39 @@ func IsValidFilter(filter string, forPublish bool) bool {
 		if strings.ContainsRune(filter, '+') || strings.ContainsRune(filter, '#') {
 			return false //[MQTT-3.3.2-2]
 		}
-	}
 
-	wildhash := strings.IndexRune(filter, '#')
-	if wildhash >= 0 && wildhash != len(filter)-1 { // [MQTT-4.7.1-2]
-		return false
+		return true // topic names have no further restrictions
 	}
 
 	prefix, hasNext := isolateParticle(filter, 0)
-	if !hasNext && strings.EqualFold(prefix, SharePrefix) {
-		return false // [MQTT-4.8.2-1]
-	}
-
-	if hasNext && strings.EqualFold(prefix, SharePrefix) {
-		group, hasNext := isolateParticle(filter, 1)
+	if strings.EqualFold(prefix, SharePrefix) {
 		if !hasNext {
+			return false // [MQTT-4.8.2-1]
+		}
+
+		group, hasNext := isolateParticle(filter, 1)
+		if !hasNext || len(group) == 0 {
 			return false // [MQTT-4.8.2-1]
 		}
 
 		if strings.ContainsRune(group, '+') || strings.ContainsRune(group, '#') {
 			return false // [MQTT-4.8.2-2]
+		}
+
+		filter = filter[len(prefix)+len(group)+2:] // the topic filter following $share/<group>/
+		if len(filter) == 0 {
+			return false // [MQTT-4.8.2-1]
+		}
+	}
+
+	for level, hasNext, d := "", true, 0; hasNext; d++ {
+		level, hasNext = isolateParticle(filter, d)
+		if strings.ContainsRune(level, '#') && (level != "#" || hasNext) {
+			return false // [MQTT-4.7.1-2] multi-level wildcard must be the whole last level
+		}
+
+		if strings.ContainsRune(level, '+') && level != "+" {
+			return false // [MQTT-4.7.1-3] single-level wildcard must occupy an entire level
 		}
 	}
 
